@@ -4,5 +4,5 @@
 set -e
 cd "$(dirname "$0")"
 mkdir -p evidence replays
-python3 gen_manifest.py >/dev/null
+python3-vt gen_manifest.py >/dev/null
 echo "verif setup ok"
